@@ -811,6 +811,108 @@ def interleaved(ctx, seed, n):
     core.run_hypothesis(test2, seed, n)
 
 
+def stack_overflow_cases(ctx, only=None):
+    """A REAL RecursionError (the interpreter's limit, not a raised object) in the middle of a deep chain of checked calls -
+    a linked list of nodes with an invariant walked recursively, a chain of distinct contracted functions calling one
+    another - at every alignment of the stack (0..5 plain frames below the chain, i.e. the limit is hit inside a condition,
+    a wrapper, the library's own bookkeeping or a body). The error surfaces, and afterwards every node / function is checked
+    exactly as in a fresh process: nothing stays suspended."""
+    import sys
+    import icontract
+
+    evals = []
+
+    def inv(self):
+        evals.append(("inv", self.i))
+        return True
+
+    @icontract.invariant(inv)
+    class Node:
+        def __init__(self, i, nxt):
+            self.i = i
+            self.nxt = nxt
+
+        def depth(self):
+            return 0 if self.nxt is None else 1 + self.nxt.depth()
+
+        def ping(self):
+            return self.i
+
+    def mkfun(i, table):
+        def pre(x):
+            evals.append(("pre", i))
+            return True
+
+        def post(result):
+            evals.append(("post", i))
+            return True
+
+        @icontract.require(pre)
+        @icontract.ensure(post)
+        def f(x):
+            if x and i + 1 < len(table):
+                return table[i + 1](x)
+            return i
+        return f
+
+    def pad(k, thunk):
+        return thunk() if k == 0 else pad(k - 1, thunk)
+
+    N = 160
+    for kind in ("nodes", "functions"):
+        for k in range(6):
+            key = [kind, k]
+            if only is not None and only != key:
+                continue
+            if kind == "nodes":
+                nodes = []
+                nxt = None
+                for i in reversed(range(N)):
+                    nxt = Node(i, nxt)
+                    nodes.append(nxt)
+                nodes.reverse()
+                top = lambda: nodes[0].depth()  # noqa
+            else:
+                table = []
+                for i in range(N):
+                    table.append(mkfun(i, table))
+                top = lambda: table[0](True)  # noqa
+            old = sys.getrecursionlimit()
+            here = len(__import__("inspect").stack(0))
+            try:
+                sys.setrecursionlimit(here + 150)  # the chain needs several frames per link: it cannot finish
+                try:
+                    pad(k, top)
+                    outcome = "finished"
+                except RecursionError:
+                    outcome = "RecursionError"
+                except BaseException as e:  # noqa
+                    outcome = "%s: %s" % (type(e).__name__, str(e)[:80])
+            finally:
+                sys.setrecursionlimit(old)
+            bad = []
+            for i in range(N):
+                del evals[:]
+                try:
+                    if kind == "nodes":
+                        nodes[i].ping()
+                        want = [("inv", i), ("inv", i)]
+                    else:
+                        table[i](False)
+                        want = [("pre", i), ("post", i)]
+                    if evals != want:
+                        bad.append((i, list(evals)))
+                except BaseException as e:  # noqa
+                    bad.append((i, "%s: %s" % (type(e).__name__, str(e)[:60])))
+            ctx.case(["stack-overflow"] + key, True, sample={"directed": "real RecursionError in a chain of %s, %d plain frames below" % (kind, k),
+                                                            "outcome": outcome})
+            ctx.count("directed:stack-overflow")
+            if outcome != "RecursionError" or bad:
+                ctx.fail("stack-overflow|%s" % kind, {"stack_overflow": key},
+                         "chain of %d %s entered below %d plain frames with the recursion limit 150 frames away: outcome %s; "
+                         "afterwards these links were not checked as in a fresh process (index, events): %r" % (N, kind, k, outcome, bad[:4]))
+
+
 def run(ctx, tier, seed, shard, nshards):
     import sys
 
@@ -818,6 +920,7 @@ def run(ctx, tier, seed, shard, nshards):
     n = N_QUICK if tier == "quick" else N_THOROUGH
     if shard == 0:
         nested_family(ctx)
+        stack_overflow_cases(ctx)
 
     @given(st_case())
     def test(case):
@@ -829,6 +932,11 @@ def run(ctx, tier, seed, shard, nshards):
 
 
 def replay(ctx, case):
+    if case.get("stack_overflow"):
+        before = ctx.evaluations
+        stack_overflow_cases(ctx, only=case["stack_overflow"])
+        ctx.evaluations = before + 1
+        return
     import warnings
 
     if case.get("context_history"):
